@@ -158,7 +158,13 @@ func verifHarness_C06_serve() {
 	cfg := verifCfg()
 	custom := cfg%2 == 1
 	defs := verifC06Tables[(cfg/2)%len(verifC06Tables)]
+	// second half of the configurations: a caching router that has already served a HEAD and a
+	// GET request for the same path (what the measured request is answered must not depend on it)
+	warmed := (cfg/(2*len(verifC06Tables)))%2 == 1
 	r := New(HandleMethodNotAllowed)
+	if warmed {
+		r = New(HandleMethodNotAllowed, EnableCaching)
+	}
 	ran := -1
 	for i, d := range defs {
 		i := i
@@ -175,6 +181,11 @@ func verifHarness_C06_serve() {
 	}
 	m := verifReqMethod()
 	p := verifNormalPath("p", verifParam("L"))
+	if warmed {
+		r.ServeHTTP(verifNewWriter(), verifRequest("HEAD", p))
+		r.ServeHTTP(verifNewWriter(), verifRequest("GET", p))
+		ran, nfRan, naRan, sawAllowed = -1, false, false, nil
+	}
 	rec := verifNewWriter()
 	r.ServeHTTP(rec, verifRequest(m, p))
 	// expected allowed set, from the specification
